@@ -74,6 +74,20 @@ def e2e_fault_plan(W):
     return plan
 
 
+def e2e_backlog_plan(W, ntargets, sleep):
+    """many more READY targets than workers, each command running longer than any enqueue back-stop (1 s): the commands must
+    still run at most num_workers at a time"""
+    def plan(h, r):
+        open(os.path.join(h.ws, "grog.toml"), "w").write("num_workers = %d\n" % W)
+        T = lambda k: {"k": "t", "pkg": "p", "name": "w%d" % k, "salt": "v0", "ins": [], "glob": None, "excl": [],
+                       "outs": [("file", "o_w%d.txt" % k)], "deps": [], "fp": {}, "nocache": False, "multi": False,
+                       "beh": "n", "check": False, "comment": "", "sleep": sleep}
+        h.set_sources({"nodes": [T(k) for k in range(ntargets)], "files": {}})
+        h.build({"mode": "all", "cache": True, "workers": W})
+        return [("workers", W)]
+    return plan
+
+
 def e2e_campaign(out, tier):
     """the real binary on generated workspaces, both load_outputs modes, num_workers 1..4 (grog.toml): the O_APPEND trace
     shared by all generated commands must show every command at most once per build, started only after the commands of
@@ -81,6 +95,7 @@ def e2e_campaign(out, tier):
     n = 12 if tier == "quick" else 300
     plans = [("e2e-witness-min", e2e_plan("min", True)), ("e2e-witness-all", e2e_plan("all", True))]
     plans += [("e2e-fault-nocmd-w%d" % W, e2e_fault_plan(W)) for W in (1, 2, 1, 2)]
+    plans += [("e2e-backlog-w1", e2e_backlog_plan(1, 4, "1.4")), ("e2e-backlog-w2", e2e_backlog_plan(2, 7, "1.2"))]
     plans += [("e2e-min", e2e_plan("min"))] * n + [("e2e-all", e2e_plan("all"))] * n
     batch = hc.run_batch(plans, vlib.seed())
     hc.check_plan_errors(batch)
